@@ -22,11 +22,33 @@ SCOPE_STATE_FIELDS = {"body_before", "body_after", "attrpath_order", "after_let_
 LAYER_KEYS = ["scope", "body_before", "body_after", "attrpath_order", "after_let_comment"]
 
 
+def resolve_field(fn: ast.AST, name: str | None) -> str | None:
+    """a local receiver name -> the attribute it was loaded from (`x = obj.attr`, `x = self._attr()`)"""
+    if name is None:
+        return None
+    out = set()
+    for n in ast.walk(fn):
+        if isinstance(n, ast.Assign) and any(isinstance(t, ast.Name) and t.id == name for t in n.targets):
+            v = n.value
+            if isinstance(v, ast.Attribute):
+                out.add(v.attr)
+            elif isinstance(v, ast.Call) and isinstance(v.func, ast.Attribute) and v.func.attr.startswith("_") and not v.args:
+                out.add(v.func.attr.lstrip("_"))
+            elif isinstance(v, ast.BoolOp):
+                for x in v.values:
+                    if isinstance(x, ast.Attribute):
+                        out.add(x.attr)
+    return out.pop() if len(out) == 1 else None
+
+
 def classify(prog: Program, m, fn_of) -> tuple[str, str | None]:
     """-> (verdict, reason).  verdict: allowed:<class> | violation"""
     fld, op = m.fld, m.op
     f = prog.funcs[m.func]
     fn = f.node
+    known = BINDING_CONTAINERS | ORDER_MIRRORS | WRAPPER_FIELDS | TRIVIA_FIELDS | SCOPE_STATE_FIELDS | {"value", "trailing", "expressions", "stack"}
+    if fld not in known:
+        fld = resolve_field(fn, fld) or fld
     if m.kind == "benign":
         return "allowed:benign-normalisation", None
     if fld == "value" and op == "store .value":
